@@ -288,9 +288,9 @@ package limiter
 //@   ensures[C02,C12] empty_backlog_no_acquire: old(llen(l.limiter.backlog.list)) == 0 ==> ncalls("core.Limiter.Acquire") == 0
 //@   ensures[C02] at_most_one_acquire: ncalls("core.Limiter.Acquire") <= 1
 //@   ensures[C11] for_the_peeked_waiter: ncalls("core.Limiter.Acquire") == 1 ==> callrecv("core.Limiter.Acquire", 0) == l.limiter.delegate && ncalls("(*limiter.queue).peek") == 1 && callarg("core.Limiter.Acquire", 0, 0) == callres("(*limiter.queue).peek", 0, 1).ctx
-//@   ensures[C02,C12,C19] granted_is_evicted_then_handed: ncalls("core.Limiter.Acquire") == 1 && callres("core.Limiter.Acquire", 0, 1) && callres("core.Limiter.Acquire", 0, 0) != nil ==> ncalls("(*limiter.queue).evictionFunc$1") == 1 && ncalls("select") == 1 && callpos("(*limiter.queue).evictionFunc$1", 0) < callpos("select", 0) && callarg("select", 0, 1) == callres("core.Limiter.Acquire", 0, 0) && callarg("select", 0, 0) == callres("(*limiter.queue).peek", 0, 1).releaseChan
+//@   ensures[C02,C11,C12,C19] granted_is_evicted_then_handed: ncalls("core.Limiter.Acquire") == 1 && callres("core.Limiter.Acquire", 0, 1) && callres("core.Limiter.Acquire", 0, 0) != nil ==> ncalls("(*limiter.queue).evictionFunc$1") == 1 && ncalls("select") == 1 && callpos("(*limiter.queue).evictionFunc$1", 0) < callpos("select", 0) && callarg("select", 0, 1) == callres("core.Limiter.Acquire", 0, 0) && callarg("select", 0, 0) == callres("(*limiter.queue).peek", 0, 1).releaseChan
 //@   ensures[C02,C19] handed_or_returned: ncalls("core.Limiter.Acquire") == 1 && callres("core.Limiter.Acquire", 0, 1) && callres("core.Limiter.Acquire", 0, 0) != nil ==> (callres("select", 0, 0) == 0 && ncalls("core.Listener.OnIgnore") == 0) || (callres("select", 0, 0) != 0 && ncalls("core.Listener.OnIgnore") == 1 && callrecv("core.Listener.OnIgnore", 0) == callres("core.Limiter.Acquire", 0, 0))
-//@   ensures[C02] refused_touches_nothing: ncalls("core.Limiter.Acquire") == 1 && !(callres("core.Limiter.Acquire", 0, 1) && callres("core.Limiter.Acquire", 0, 0) != nil) ==> ncalls("(*limiter.queue).evictionFunc$1") == 0 && ncalls("select") == 0 && ncalls("core.Listener.OnIgnore") == 0
+//@   ensures[C02,C11] refused_touches_nothing: ncalls("core.Limiter.Acquire") == 1 && !(callres("core.Limiter.Acquire", 0, 1) && callres("core.Limiter.Acquire", 0, 0) != nil) ==> ncalls("(*limiter.queue).evictionFunc$1") == 0 && ncalls("select") == 0 && ncalls("core.Listener.OnIgnore") == 0
 //@   ensures[C02] never_completes_otherwise: ncalls("core.Listener.OnSuccess") == 0 && ncalls("core.Listener.OnDropped") == 0
 //@   ensures[C12,C17] serialised: ncalls("core.Limiter.Acquire") == 1 ==> calledUnder("core.Limiter.Acquire", 0, l.limiter.mu)
 //@   owns[C17]
@@ -318,7 +318,7 @@ package limiter
 //@   ensures[C13] waits_on_the_right_channels: ncalls("(*limiter.queue).push") == 1 ==> ncalls("select") == 1 && callarg("select", 0, 0) == callres("(*limiter.queue).push", 0, 1) && (l.maxBacklogTimeout > 0 <==> callarg("select", 0, 1) != nil) && (l.backlogEvictDoneCtx <==> ncalls("context.Context.Done") == 1) && (l.backlogEvictDoneCtx ==> callarg("select", 0, 2) == callres("context.Context.Done", 0, 0)) && (!l.backlogEvictDoneCtx ==> callarg("select", 0, 2) == nil)
 //@   ensures[C02,C12] handed_over: ncalls("select") == 1 && callres("select", 0, 0) == 0 ==> ncalls("funcvalue:value:limiter.EvictFunc") == 0
 //@   ensures[C02,C19] handed_listener_is_returned: ncalls("select") == 1 && callres("select", 0, 0) == 0 ==> result == callres("select", 0, 1)
-//@   ensures[C12,C13] give_up_evicts: ncalls("select") == 1 && callres("select", 0, 0) != 0 ==> result == nil && ncalls("(*limiter.queue).evictionFunc$1") == 1 && callpos("select", 0) < callpos("(*limiter.queue).evictionFunc$1", 0)
+//@   ensures[C11,C12,C13] give_up_evicts: ncalls("select") == 1 && callres("select", 0, 0) != 0 ==> result == nil && ncalls("(*limiter.queue).evictionFunc$1") == 1 && callpos("select", 0) < callpos("(*limiter.queue).evictionFunc$1", 0)
 //@   owns[C17]
 //@   assigns listof(l.backlog.list)
 
@@ -391,7 +391,10 @@ package limiter
 //@   ensures[C02] wraps: result != nil && fresh(result) && result.delegateListener == delegateListener
 //@   assigns nothing
 
-// pop is used by tests only; its effect is peek's eviction closure (contracts above).
+// pop is used by tests only; its effect is peek's choice followed by peek's eviction closure.
 //@ func (*queue).pop
 //@   maintains q
+//@   ensures[C11] pops_what_peek_chose: ncalls("(*limiter.queue).peek") == 1 && result == callres("(*limiter.queue).peek", 0, 1)
+//@   ensures[C11,C12] evicts_the_chosen_one: callres("(*limiter.queue).peek", 0, 0) != nil ==> ncalls("(*limiter.queue).evictionFunc$1") == 1 && callpos("(*limiter.queue).peek", 0) < callpos("(*limiter.queue).evictionFunc$1", 0)
+//@   ensures[C11,C12] empty_pops_nothing: callres("(*limiter.queue).peek", 0, 0) == nil ==> ncalls("(*limiter.queue).evictionFunc$1") == 0 && result == nil
 //@   owns[C17]
